@@ -345,7 +345,7 @@ static void DecodeAdr(tStrComp* pArg, LongWord Mask) {
             AdrWord = EvalStrIntExpressionWithResult(&RegComp, UInt9, &EvalResult);
             if (!(EvalResult.AddrSpaceMask & (1 << SegReg))) {
                 WrError(ErrNum_InvAddrMode);
-            } else if (AdrWord < 0xff) {
+            } else if (AdrWord <= 0xff) {
                 AdrVals[0] = Lo(AdrWord);
                 AdrWord    = EvalStrIntExpression(pArg, Int8, &OK);
                 if (AdrWord != 0) {
@@ -387,7 +387,7 @@ static void DecodeAdr(tStrComp* pArg, LongWord Mask) {
             AdrVals[1] = Lo(AdrWord);
             AdrCnt     = 2;
             ChkSpace(AbsSeg, EvalResult.AddrSpaceMask);
-        } else if (AdrWord < 0xff) {
+        } else if (AdrWord <= 0xff) {
             AdrMode    = ModReg;
             AdrVals[0] = Lo(AdrWord);
             AdrCnt     = 1;
